@@ -2,6 +2,8 @@ import AndaVerif.Model.BTree
 import AndaVerif.Model.BTreeFlush
 import AndaVerif.Model.Prefix
 import AndaVerif.Model.BTreeConc
+import AndaVerif.Model.BTreePack
+import AndaVerif.Model.BTreeVol
 import AndaVerif.Drv.Util
 /-
 Line-protocol driver of the C10 model (`drv_c10`). One request line in, one response line out.
@@ -14,7 +16,7 @@ KS = comma list or `-`.
 
 L2 (durable side; the writes are the ones the harness recorded from the real flush, decoded):
   flw K|- WRITE…   a flush whose first K writes (all if `-`) reach the store. Response:
-                   `shape:b strict:b ci:N new:b | dump_0 | … | dump_n` (model `load` of every prefix)
+                   `shape:b strict:b vol:b ci:N new:b | dump_0 | … | dump_n` (model `load` of every prefix)
   flp WRITE…       the bucket PUTs of a flush that failed before its commit (all applied).
                    Response: `fresh:b | dump`
   reload           the index is dropped and loaded from the store (fresh index if no metadata)
@@ -27,6 +29,7 @@ Threads (L3; the schedule is the one the explorer drove the real threads through
             i1 i2 i3 i4 r1 r2 r3 c1 c2 c3, `n` (the `.0` point of its next operation), `e` (finished)
     Response: `ok res R0|R1|… final DUMP q:b wf:b` (per-thread results `ok:b`, `err:exists`, `rm:b`, `c`),
               or `err:disabled:N` / `err:tag:N:TAG` when the model cannot follow step N.
+Packing:  pack LIMIT k:size,k:size…   → the bins of `BTreePack.ffd` in order, `k,k|k|…` (keys ascending inside a bin)
 String-keyed index (prefix queries; keys are hex of the UTF-8 bytes, `-` = empty string):
   sins D HEX | srem D HEX | pq N|- all|odd HEX
 WRITE = `P b g PAYLOAD` | `M version maxb ins del qc MANIFEST` | `D b g`;
@@ -266,6 +269,13 @@ structure DState where
   bt : State
   dur : BTreeFlush.Durable
   smap : Prefix.SMap := []
+  /-- coverage of the model under the correspondence run: (branch key, hits); printed by `cov` -/
+  cov : List (String × Nat) := []
+
+def bump (cov : List (String × Nat)) (k : String) : List (String × Nat) :=
+  match cov with
+  | [] => [(k, 1)]
+  | (k', n) :: r => if k' = k then (k', n + 1) :: r else (k', n) :: bump r k
 
 open AndaVerif.BTreeFlush in
 def reloadState (s : DState) : DState :=
@@ -283,11 +293,29 @@ def stepFlush (s : DState) (k : Option Nat) (ws : List Write) : DState × String
   let canon := fun (m : OMap) => m.map (fun (k, p) => (k, sortNats p))
   let newOk := (load (applyAll s.dur (ws.take (ci + 1)))).map canon == some (canon s.bt.map)
   let dumps := (List.range (ws.length + 1)).map (fun j => showLoad (load (applyAll s.dur (ws.take j))))
+  -- `Model/BTreeVol` on the bucket table read off the observation: the buckets written are the dirty
+  -- ones, the other entries of the new manifest are clean buckets; the model's new manifest, obsolete
+  -- list and write sequence must be the observed ones
+  let vol := match newMeta? ws with
+    | none => false
+    | some m =>
+      let puts := ws.filterMap (fun w => match w with | .putObj o p => some (o, p) | _ => none)
+      let dirty : List VBucket := puts.map (fun e => ⟨e.1.1, true, e.2⟩)
+      let clean : List VBucket := (m.manifest.filter (fun o => !(puts.any (fun e => e.1.1 == o.1)))).map (fun o => ⟨o.1, false, []⟩)
+      let all := dirty ++ clean
+      let ids := sortDedup (all.map (fun b => (b.id : Int)))
+      let buckets := ids.filterMap (fun i => all.find? (fun b => (b.id : Int) == i))
+      let V : Vol := { buckets, committed := committedEntries s.dur, version := m.version, savedVersion := m.version - 1,
+                       maxBucket := m.maxBucket, insertCount := m.insertCount, deleteCount := m.deleteCount, queryCount := m.queryCount }
+      let mw := V.flushWrites
+      let notDel := fun (w : Write) => match w with | .delObj _ => false | _ => true
+      (mw.filter notDel == ws.filter notDel)
+        && (delTargets mw).all (fun o => (delTargets ws).contains o) && (delTargets ws).all (fun o => (delTargets mw).contains o)
   let kk := match k with | some k => k | none => ws.length
   ({ s with dur := applyAll s.dur (ws.take kk) },
-   s!"shape:{bit shape} strict:{bit strict} ci:{ci} new:{bit newOk} | " ++ " | ".intercalate dumps)
+   s!"shape:{bit shape} strict:{bit strict} vol:{bit vol} ci:{ci} new:{bit newOk} | " ++ " | ".intercalate dumps)
 
-def stepLine (s : DState) (line : String) : DState × String :=
+def stepLine0 (s : DState) (line : String) : DState × String :=
   match words line with
   | ["new", u] => ({ bt := init (u = "1"), dur := { objs := [], md := none }, smap := [] }, "ok")
   | "flw" :: k :: ws =>
@@ -309,7 +337,18 @@ def stepLine (s : DState) (line : String) : DState × String :=
     (match b.toNat?, k.toInt?, natList? ids with
      | some b, some k, some ids => ({ s with dur := BTreeFlush.injectStale s.dur b k ids }, "ok")
      | _, _, _ => (s, "err:parse"))
-  | ["dump"] => (s, showMap s.bt.map)
+  | ["dump"] =>
+    -- the harness dumps through `keys()` + one `query_with` per key: the latter bump `query_count`
+    ({ s with bt := { s.bt with queryCount := s.bt.queryCount + s.bt.map.length } }, showMap s.bt.map)
+  | ["pack", limit, items] =>
+    (match limit.toNat?, (if items = "-" then some [] else (items.splitOn ",").mapM (fun e =>
+        match e.splitOn ":" with
+        | [k, z] => do pure ((← k.toInt?), (← z.toNat?))
+        | _ => none)) with
+     | some lim, some its =>
+       let bins := BTreePack.ffd lim its
+       (s, if bins.isEmpty then "-" else "|".intercalate (bins.map (fun b => showInts (sortDedup b.2))))
+     | _, _ => (s, "err:parse"))
   | "sched" :: u :: ini :: rest => (s, stepSched u ini rest)
   | ["sins", d, k] =>
     (match d.toNat?, parseHex k with
@@ -336,6 +375,73 @@ def stepLine (s : DState) (line : String) : DState × String :=
       match step s.bt op with
       | (bt', o) => ({ s with bt := bt' }, showOut o)
     | none => (s, "err:parse")
+
+/-- which branches of the model a request exercised (from the state before it and its answer) -/
+def covKeys (s : DState) (ws : List String) (out : String) : List String :=
+  let look := fun (k : String) => (k.toInt?).bind (fun k => s.bt.map.lookup k)
+  match ws with
+  | ["ins", _, k] =>
+    [match look k with
+     | none => "ins:new_key"
+     | some _ => if out = "ok:1" then "ins:append" else if out = "ok:0" then "ins:idempotent" else "ins:unique_conflict"]
+  | ["rem", _, k] =>
+    [match look k with
+     | none => "rem:no_key"
+     | some p => if out = "1" then (if p.length = 1 then "rem:last_id_key_dropped" else "rem:one_of_many") else "rem:id_absent"]
+  | ["insa", _, ks] =>
+    [if out = "err:exists" then "insa:precheck_conflict" else if ks = "-" then "insa:empty_list"
+     else if out = "ok:0" then "insa:all_present" else "insa:applied"]
+  | ["rema", _, ks] => [if ks = "-" then "rema:empty_list" else if out = "0" then "rema:none" else "rema:applied"]
+  | ["upd", _, _, _] => [if out = "err:exists" then "upd:conflict_no_removal" else if out = "ok:0,0" then "upd:noop" else "upd:applied"]
+  | ["get", _] => [if out = "none" then "get:none" else "get:some"]
+  | ["keys", c, l] => [s!"keys:cursor={bit (c != "-")},limit={bit (l != "-")}", if out = "-" then "keys:empty" else "keys:nonempty"]
+  | ["len"] => ["len"]
+  | ["stats"] => ["stats"]
+  | ["dump"] => ["dump"]
+  | "rq" :: dir :: n :: mode :: q :: rest =>
+    [s!"rq:head={q}", s!"rq:{dir}:{if n = "-" then "unbounded" else "stop"}", s!"rq:mode={mode}",
+     if s.bt.map.isEmpty then "rq:empty_index_return"
+     else if q = "deep" && ((rest.head?.bind String.toNat?).getD 0) ≥ 64 then "rq:depth_cap_return"
+     else if out = "-" then "rq:no_match" else "rq:answer"]
+  | "flw" :: k :: _ =>
+    [s!"flw:{(out.splitOn " ci:").headD ""}", if k = "-" then "flw:complete" else "flw:cut",
+     match s.dur.md with
+     | none => "flw:first_commit"
+     | some m => if m.manifest.isEmpty then "flw:from_legacy_layout" else "flw:from_manifest_layout"]
+  | "flp" :: _ => ["flp:uncommitted_puts"]
+  | ["reload"] =>
+    [match s.dur.md with
+     | none => "reload:no_metadata_fresh_index"
+     | some m => if m.manifest.isEmpty then "reload:legacy_probe" else "reload:manifest"]
+  | ["legacy"] => ["store:to_legacy"]
+  | ["stale", _, _, ids] => [if ids = "-" then "store:inject_tombstone" else "store:inject_stale_copy"]
+  | ["pack", _, _] => [s!"pack:bins={(out.splitOn "|").length}"]
+  | "sched" :: _ :: _ :: rest =>
+    let toks := rest.filter (fun t => t != "T" && t != "S")
+    let ops := (toks.dropLast.flatMap (fun p => p.splitOn ",")).map (fun o =>
+      match o.splitOn ":" with
+      | ["i", _, _, sp] => s!"conc:op=insert,spill={sp}"
+      | ["r", _, _] => "conc:op=remove"
+      | ["c", sk] => s!"conc:op=compact,skip={sk}"
+      | _ => "conc:op=?")
+    let steps := ((toks.getLast?.getD "").splitOn ",").map (fun st => s!"conc:park={(st.splitOn ">").getD 1 "?"}")
+    (if out.startsWith "ok " then "conc:replayed" else "conc:left_model") :: (ops ++ steps)
+  | ["sins", _, _] => [if out = "ok:1" then "sins:added" else "sins:idempotent"]
+  | ["srem", _, _] => [if out = "1" then "srem:removed" else "srem:absent"]
+  | ["pq", n, mode, pre] =>
+    [s!"pq:{if pre = "-" then "empty_prefix" else "prefix"}:{if n = "-" then "unbounded" else "stop"}:{mode}",
+     if out = "-" then "pq:no_match" else "pq:answer"]
+  | ["new", u] => [s!"new:unique={u}"]
+  | _ => ["other"]
+
+def stepLine (s : DState) (line : String) : DState × String :=
+  match words line with
+  | ["cov"] => (s, if s.cov.isEmpty then "-" else ";".intercalate (s.cov.map (fun (k, n) => s!"{k}@{n}")))
+  | ws =>
+    match stepLine0 s line with
+    | (s', out) =>
+      let keys := covKeys s ws out
+      ({ s' with cov := keys.foldl bump s.cov }, out)
 
 end AndaVerif.Drv.C10
 
